@@ -49,7 +49,16 @@ type c19Case struct {
 
 // the call under test as a statement, or nested: as the value of a named argument, as a positional
 // argument, inside a list literal that is an argument, as the right-hand side of an assignment
-var c19Wraps = []string{"%s", "w(k = %s)", "w(%s)", "w(k = [1, %s])", "x = %s", "w(k = w(k = %s))"}
+var c19Wraps = []string{"%s", "w(k = %s)", "w(%s)", "w(k = [1, %s])", "x = %s", "w(k = w(k = %s))",
+	// statement contexts (the call is executed exactly once): branches, loop bodies, after a conditional
+	// break/continue met earlier in the body, after an inner loop that ended with break, loop headers,
+	// operands, index and literal positions
+	"if true { %s }", "if false { x = 1 } else { %s }", "if false { x = 1 } elif true { %s }", "for i in [1] { %s }",
+	"for i in [1] { if i == 2 { break }\n %s }", "for i in [1] { if i == 2 { continue }\n %s }",
+	"for i = 0; i < 1; i = i + 1 { if i == 5 { break }\n %s }", "for i in [1, 2] { if i == 2 { break }\n %s }",
+	"for i in [1] { for j in [1] { break }\n %s }", "for i in [1] { if true { if false { continue } }\n if true { %s } }",
+	"if w(k = %s) == 2 { x = 1 }", "for i in [%s] { x = i }", "for i = %s; i < 1; i = i + 1 { x = i }", "l = [1, 2]\nx = l[%s]", "x = -%s", "x = 1 + %s * 2", "x = {\"a\": %s}",
+	"for i in [1] { x = 1 }\n%s", "for i in [1] { break }\n%s"}
 
 func c19ValidName(s string) bool {
 	if s == "" {
